@@ -119,6 +119,7 @@ def _op_big_part(g, res):
             par = np.indices(a.shape).sum(axis=0) % 2
             arrs.append(a if mode == 0 else (-a if mode == 1 else np.where(par == (mode - 2), a, -a)))
         pats.append(arrs)
+    pats += [[s_ * a for s_, a in zip(sg, absu)] for sg in U.axis_sign_patterns(g.d) if len(set(sg)) > 1]
 
     def rep(what, vec, mag):
         res["evals"] += 1
